@@ -851,6 +851,51 @@ func kvfsFailThen(c *Ctx, fmtName string, k int) {
 	c.Distinct(op)
 }
 
+// kvfsCancel: the caller's context turns cancelled at its k-th poll, for every k a small pack makes and a few more (the
+// last ones fall after the walk's final check: during the last body, the flush, the commit). A pack that answers an error
+// has put no ware into the (empty) warehouse; one that answers an id has put exactly that ware there.
+// Recipe: "kvfs-cancel <tar|zip> <ca|file>".
+func kvfsCancel(c *Ctx, fmtName, whKind string) {
+	op := fmt.Sprintf("kvfs-cancel %s %s", fmtName, whKind)
+	c.Begin(op)
+	c.EmitR(op, "skip", "skip")
+	fn := funcsFor(fmtName)
+	pf := api.MustParseFilesetPackFilter(losslessPackStr)
+	for k := 1; k <= 9; k++ {
+		caseCounter++
+		base := filepath.Join(c.Work, fmt.Sprintf("kvc%d", caseCounter))
+		src, wh := filepath.Join(base, "src"), filepath.Join(base, "wh")
+		os.MkdirAll(filepath.Join(src, "d"), 0755)
+		os.MkdirAll(wh, 0755)
+		os.Setenv("RIO_CACHE", filepath.Join(base, "cache"))
+		os.WriteFile(filepath.Join(src, "a"), []byte("a"), 0644)
+		os.WriteFile(filepath.Join(src, "d", "b"), bytes.Repeat([]byte("b"), 70000), 0644)
+		os.WriteFile(filepath.Join(src, "z"), bytes.Repeat([]byte("z"), 200000), 0644)
+		cc := &countdownCtx{Context: context.Background(), left: k, done: make(chan struct{})}
+		id, err, pan := safeCall(func() (api.WareID, error) {
+			return fn.pack(cc, api.PackType(fmtName), src, pf, whAddr(whKind, wh), rio.Monitor{})
+		})
+		var served []string
+		filepath.Walk(wh, func(p string, fi os.FileInfo, e error) error {
+			if e == nil && fi.Mode().IsRegular() && !strings.HasPrefix(filepath.Base(p), ".tmp.") {
+				served = append(served, p)
+			}
+			return nil
+		})
+		c.H(fmt.Sprintf("kvfs-cancel:%s:%s", fmtName, strings.Fields(resTok(id, err, pan))[0]))
+		switch {
+		case pan != "":
+			c.PropFail("kvfs-panic", "a cancelled pack panicked: "+pan, op)
+		case err != nil && len(served) > 0:
+			c.PropFail("error-but-committed", fmt.Sprintf("a pack whose context turned cancelled at its poll number %d answered %q, yet the warehouse, empty before, now serves %v", k, err.Error(), served), op)
+		case err == nil && len(served) != 1:
+			c.PropFail("ok-but-not-served", fmt.Sprintf("a pack answered %s and the warehouse holds %d objects", id, len(served)), op)
+		}
+		rmrf(base)
+	}
+	c.Distinct(op)
+}
+
 func kvfsEngine(c *Ctx) {
 	if ls := replayLines(); ls != nil {
 		for _, op := range ls {
@@ -874,6 +919,9 @@ func kvfsEngine(c *Ctx) {
 				n := 0
 				fmt.Sscan(f[3], &n)
 				kvfsOverlap(c, f[1], f[2], n)
+			} else if strings.HasPrefix(op, "kvfs-cancel ") {
+				f := strings.Fields(op)
+				kvfsCancel(c, f[1], f[2])
 			} else if strings.HasPrefix(op, "kvfs-failthen ") {
 				f := strings.Fields(op)
 				k := 0
@@ -896,6 +944,7 @@ func kvfsEngine(c *Ctx) {
 		for _, k := range []int{3, 9} {
 			kvfsFailThen(c, fm, k+c.Intn(3))
 		}
+		kvfsCancel(c, fm, []string{"ca", "file"}[c.Intn(2)])
 	}
 	whats := []string{"pack-tar", "pack-zip", "mirror"}
 	for k := 0; k < n; k++ {
